@@ -252,6 +252,11 @@ def _k_rule(c) -> CaseInfo:
     need(enc[0] == flags, "year_offset/flags", f"{r}: {enc[0]:#x} vs {flags:#x}")
     need(len(enc) == 1 + 1 + 1 + ms_size(r["ms"]), "year_offset/size", f"{r}: {len(enc)}")
     fy, ty, sav, name = c["from_year"], c["to_year"], c["savings"], c["name"]
+    if fy in (-9998, 9999) or ty in (-9998, 9999):
+        # a recurrence evaluates its rule in its first and last year when it is built; in the first / last year of the
+        # supported range a rule near the year's edge (Dec 29 "next Sunday", Jan 1 "previous Monday") has no
+        # representable occurrence, so such a recurrence cannot be constructed at all: outside the codec's domain
+        raise InvalidCase
     rec = _ZoneRecurrence(name, Offset.from_seconds(sav), yo, fy, ty)
     pool: list[str] = []
     val2, _ = roundtrip(lambda w: rec._write(w), lambda rd: _ZoneRecurrence.read(rd), "recurrence", pool_w=pool)
